@@ -482,7 +482,7 @@ package protocol
 //@   top-ensures isFresh(h)
 
 //@ func ResponseHeader.Reset(h)
-//@   props C09
+//@   props C09, C04
 //@   replay-go var h ResponseHeader; h.SetHeaderLength(42); h.Reset(); if h.GetHeaderLength() != 0 { fmt.Println("VCGO-VIOLATED GetHeaderLength after Reset =", h.GetHeaderLength()) }
 //@   modifies h._all, h.trailer._all
 //@   allocates
@@ -869,6 +869,16 @@ package protocol
 //@ func URI.LastPathSegment(u) r
 //@   props C03
 //@   requires u != nil
+
+// C03: the multipart boundary is cut out of the Content-Type value of the peer without any index leaving the value
+// (a bare "boundary" parameter, a missing '=', an unterminated quote included).
+//@ func RequestHeader.MultipartFormBoundary(h) r
+//@   props C03
+//@   requires h != nil
+//@   loop 0:
+//@     invariant 0 <= n && (len(b) == 0 || n < len(b))
+//@   loop 1:
+//@     invariant 1 <= n && n <= len(b)
 
 //@ func ParseContentLength(b) r, err
 //@   props C03
